@@ -224,7 +224,11 @@ def shape_tags(asg) -> list[str]:
                     tags.append("product-of-partial-sums")
     for lit in literals(asg["rhs"]):
         if lit["v"] is None or abs(lit["v"]["n"]) > 32767:
-            tags.append("big-literal")
+            fr = Fraction(lit["text"]) if "e" not in lit["text"].lower() else Fraction(float(lit["text"]))
+            den = fr.denominator
+            # big-literal: exactly representable as a double but beyond TLC's integers; inexact-literal: not dyadic, so
+            # the double the back ends use differs from the decimal text and no exact reference applies
+            tags.append("big-literal" if den & (den - 1) == 0 else "inexact-literal")
     return sorted(set(tags))
 
 
